@@ -743,6 +743,9 @@ def logv(
         in the given input ``flow`` field.
 
     """
+    if spacing is None and not align_corners:
+        # Distance between grid points in normalized coordinates (default of flow_derivatives() is 2 / (n - 1))
+        spacing = tuple(2 / n for n in reversed(flow.shape[2:]))
     v = flow
     for _ in range(num_iters):
         u = expv(
